@@ -94,6 +94,8 @@ add("C52", MC, "(a) one Profiler active inside the exhaustive completion-order s
     "exhaustive interleaving exploration (profiler) + exhaustive enumeration of get histories (cache) on the real callbacks")
 add("C16", MC, "clone / bind / wait_on / checkpoint applied to arrays (blockwise and materialized layers), bags, delayed trees and dataframes built from recording task functions, for every kind pair x omit x seed x assume_layers x split_every x optimize_graph; each construction is computed through the real get_async under EVERY completion order with <= 1 (3) deviations from FIFO and the execution log is judged in each: values unchanged, clone keys disjoint, children strictly after parents, checkpoint after all inputs.", "5/C16", SCHED_NOTE + " uuid4 is made deterministic during a compute so that replayed schedule prefixes see the same optimized graph.",
     "deviation-bounded exhaustive interleaving exploration of the real scheduler with execution-log oracle")
+add("C08", EX, "EVERY legacy expression of depth <= 2 (3) over keys (str and tuple), literals, key-like strings protected by literal/quote, nested calls, lists and dicts is placed in a graph and evaluated by dask.get, threaded.get and convert_legacy_graph+execute_graph against a reference interpreter of the stated legacy semantics; reported dependencies are compared with the syntactically referenced keys and a pickle round trip must keep dependencies and value; the same grammar builds Task/List/Dict/Alias/DataNode graphs directly.", "5/C08", GRAPH_NOTE,
+    "bounded exhaustive enumeration of a term grammar against a reference interpreter")
 
 
 def build():
